@@ -701,3 +701,22 @@ func ConnidsVerifTokensOf(t *Transport) [][16]byte {
 	sort.Slice(out, func(i, j int) bool { return string(out[i][:]) < string(out[j][:]) })
 	return out
 }
+
+// ConnidsVerifFillUntilLimit feeds the connection's own connIDManager NEW_CONNECTION_ID frames with
+// consecutive sequence numbers (distinct IDs and tokens) and returns how many were accepted before
+// the first CONNECTION_ID_LIMIT_ERROR, together with the manager's advertisedLimit field.
+func ConnidsVerifFillUntilLimit(c *Conn) (accepted int, advertised uint64) {
+	advertised = c.connIDManager.advertisedLimit
+	for seq := uint64(1); seq < 40; seq++ {
+		var tok protocol.StatelessResetToken
+		tok[15], tok[14] = byte(seq), 0x50
+		err := c.connIDManager.Add(&wire.NewConnectionIDFrame{
+			SequenceNumber: seq, ConnectionID: protocol.ParseConnectionID([]byte{byte(seq), 9, 9, 9}), StatelessResetToken: tok,
+		})
+		if err != nil {
+			return
+		}
+		accepted++
+	}
+	return
+}
